@@ -127,6 +127,80 @@ fn exercise(g: GameState, mid: GameState, unwind: bool) -> Value {
         let t = h.tail(); // a new list sharing all but the first node
         (h.len(), h.iter().count(), h.head().map(|z| z.board_state_hash()), t.len())
     };
+    // tails and iterators of the long list
+    let (tail_iter_count, tail_chain_len, partial_iter) = {
+        let h = g.unwrap_play_phase().hash_history();
+        let t = h.tail();
+        let c = t.iter().count();
+        let mut tt = t.tail();
+        for _ in 0..1000 {
+            tt = tt.tail();
+        }
+        let mut it = h.iter();
+        let mut seen = 0u32;
+        while seen < 10 && it.next().is_some() {
+            seen += 1;
+        }
+        drop(it); // dropped mid-way
+        (c, tt.len(), seen)
+    };
+    // mid-turn queries at steps 1..3 on top of the long history, then a pass at step 3
+    let mut mid_turn_queries = 0u32;
+    {
+        let mut cur = g.clone();
+        for _ in 0..3 {
+            let acts = cur.valid_actions_no_rep();
+            let pick = acts.iter().find(|a| matches!(a, Action::Move(s, _) if cur.piece_board().piece_type_at_square(s).map_or(false, |p| p != Piece::Rabbit) && cur.trapped_animal_for_action(a).is_none()));
+            let a = match pick {
+                Some(a) => *a,
+                None => break,
+            };
+            cur = cur.take_action(&a);
+            let _ = (cur.valid_actions().len(), cur.is_terminal(), cur.can_pass(true), cur.has_move(cur.piece_board()), cur.transposition_hash(), cur.to_string().len());
+            mid_turn_queries += 1;
+        }
+        if cur.current_step() == 3 && cur.valid_actions().contains(&Action::Pass) {
+            let after = cur.take_action(&Action::Pass);
+            let _ = after.valid_actions().len();
+            mid_turn_queries += 1;
+        }
+    }
+    // a state with a pending push on top of the long history (wander on for a few turns until a push
+    // start is offered), queried before and after the completion
+    let mut pending_push_queried = false;
+    {
+        let mut cur = g.clone();
+        'outer: for k in 0..300u32 {
+            let acts = cur.valid_actions();
+            if acts.is_empty() || (cur.current_step() == 0 && cur.is_terminal().is_some()) {
+                break;
+            }
+            let gold = cur.is_p1_turn_to_move();
+            for a in &acts {
+                if let Action::Move(sq, _) = a {
+                    let pb = cur.piece_board();
+                    let enemy = (pb.p1_pieces >> sq.index() & 1 == 1) != gold;
+                    if enemy && cur.trapped_animal_for_action(a).is_none() {
+                        let after = cur.take_action(a);
+                        if matches!(after.unwrap_play_phase().push_pull_state(), PushPullState::MustCompletePush(..)) {
+                            let _ = (after.valid_actions().len(), after.valid_actions_no_rep().len(), after.is_terminal(), after.has_move(after.piece_board()), after.can_pass(true), after.transposition_hash(), after.to_string().len());
+                            if let Some(c) = after.valid_actions().first() {
+                                let done = after.take_action(c);
+                                let _ = (done.valid_actions().len(), done.is_terminal());
+                            }
+                            pending_push_queried = true;
+                            break 'outer;
+                        }
+                    }
+                }
+            }
+            let pick = acts[(k as usize * 5 + 1) % acts.len()];
+            if cur.trapped_animal_for_action(&pick).is_some() {
+                continue;
+            }
+            cur = cur.take_action(&pick);
+        }
+    }
     let c = g.clone();
     drop(c);
     // a successor shares the history; dropping the predecessor must not free it
@@ -193,7 +267,7 @@ fn exercise(g: GameState, mid: GameState, unwind: bool) -> Value {
         drop(mid);
     }
     let after = vmstk_kb();
-    json!({"vmstk_before_kb": before, "vmstk_mid_kb": mid_vm, "vmstk_after_newer_half_kb": after_newer, "vmstk_after_kb": after, "valid_actions": n_actions, "valid_actions_no_rep": n_norep, "terminal": term, "can_pass": cp, "has_move": hm, "printed_len": text_len, "hash": format!("{:#018x}", hash), "eq_mid": eq, "history_len": hl, "history_iter_count": hcount, "history_head": hhead.map(|h| format!("{:#018x}", h)), "tail_len": tail_len, "mid_state_valid_actions": mid_actions, "mid_state_history_len": mid_hist, "capture_after_long_stretch_taken": capture_taken, "extra_steps_before_capture": extra_steps, "dropped_during_unwinding": unwound})
+    json!({"vmstk_before_kb": before, "vmstk_mid_kb": mid_vm, "vmstk_after_newer_half_kb": after_newer, "vmstk_after_kb": after, "valid_actions": n_actions, "valid_actions_no_rep": n_norep, "terminal": term, "can_pass": cp, "has_move": hm, "printed_len": text_len, "hash": format!("{:#018x}", hash), "eq_mid": eq, "history_len": hl, "history_iter_count": hcount, "history_head": hhead.map(|h| format!("{:#018x}", h)), "tail_len": tail_len, "tail_iter_count": tail_iter_count, "tail_chain_len": tail_chain_len, "iterator_dropped_after": partial_iter, "mid_turn_query_rounds": mid_turn_queries, "pending_push_state_queried": pending_push_queried, "bytes_formatted_by_trace_logger": crate::eng::LOGGED_BYTES.load(std::sync::atomic::Ordering::Relaxed), "mid_state_valid_actions": mid_actions, "mid_state_history_len": mid_hist, "capture_after_long_stretch_taken": capture_taken, "extra_steps_before_capture": extra_steps, "dropped_during_unwinding": unwound})
 }
 
 /// A state whose history list has `n` entries, built with the public constructors (cheap way to
@@ -217,6 +291,8 @@ fn concurrent_drop(n: u64, k: usize, rounds: u64, stack: usize) -> Result<Value,
     use std::sync::Arc;
     for _ in 0..rounds {
         let g = synthetic_long_state(n);
+        // a state built with GameState::new around a supplied long list is queried like any other
+        let _ = (g.valid_actions().len(), g.is_terminal(), g.can_pass(true), g.to_string().len(), g.unwrap_play_phase().hash_history().tail().len());
         let gate = Arc::new(AtomicUsize::new(0));
         let hs: Vec<_> = (0..k)
             .map(|_| {
@@ -401,6 +477,9 @@ pub fn c20(cfg: &Cfg) -> i32 {
             if j["exercise"]["capture_after_long_stretch_taken"].as_bool() == Some(true) {
                 sink.count("runs_with_capture_after_long_stretch");
             }
+            if j["exercise"]["pending_push_state_queried"].as_bool() == Some(true) {
+                sink.count("runs_with_pending_push_state_queried");
+            }
             if j["exercise"]["dropped_during_unwinding"].as_bool() == Some(true) {
                 sink.count("runs_with_last_owner_dropped_during_unwinding");
             }
@@ -460,9 +539,9 @@ pub fn c20(cfg: &Cfg) -> i32 {
     extra.insert("child_observations".into(), json!(obs));
     let rep = Report {
         evaluations_counter: "children_run",
-        rule: "W13: child processes play L legal capture-free turns from an open position (steps from valid_actions_no_rep(), repetition legality kept by the harness' exact position set and spot-checked against valid_actions() every 10 000 turns; hash_history().len() must equal L+1), then query (action lists, result, can_pass, has_move, printing, hash, ==, history len/iter/head/tail), clone, take_action + pass, and drop the state while a clone of the state at turn L/2 is still alive, then make a capture (the engine starts a fresh history and lets go of the old one inside take_action), then query that older state and discard it - in the thread-mode children while the owning 2 MiB thread unwinds from a deliberate panic (Debug formatting is not exercised: the derived Debug of a linked list is recursive by construction and is not one of the queries the property lists). Observer 1: the whole run on a thread with the default 2 MiB stack must exit 0. Observer 2: on the main thread with an unlimited stack the growth of VmStk over the query/clone/drop block at L = 400 000 must not exceed the growth at L = 1 000 by 128 kB. Observer 3: 2-4 threads that are the only owners of one long history drop it at the same instant (spin barrier): children with 300 000-entry histories on 2 MiB threads must survive, and drop probes must show no growth of the stack span between 500 and 4 000 nodes. Observers 1-2 and the children of 3 run in the monitor profile and in plain release. distinct_nontrivial = distinct (L, seed, profile, observer) child runs that completed.".into(),
+        rule: "W13: child processes play L legal capture-free turns from an open position (steps from valid_actions_no_rep(), repetition legality kept by the harness' exact position set and spot-checked against valid_actions() every 10 000 turns; hash_history().len() must equal L+1), then query (action lists, result, can_pass, has_move, printing, hash, ==, history len/iter/head/tail), clone, take_action + pass, and drop the state while a clone of the state at turn L/2 is still alive, then query mid-turn states at steps 1-3 incl. a pass at step 3 and a state with a pending push (a `log` logger at Trace level that formats every record is installed), then make a capture (the engine starts a fresh history and lets go of the old one inside take_action), then query that older state and discard it - in the thread-mode children while the owning 2 MiB thread unwinds from a deliberate panic (Debug formatting is not exercised: the derived Debug of a linked list is recursive by construction and is not one of the queries the property lists). Observer 1: the whole run on a thread with the default 2 MiB stack must exit 0. Observer 2: on the main thread with an unlimited stack the growth of VmStk over the query/clone/drop block at L = 400 000 must not exceed the growth at L = 1 000 by 128 kB. Observer 3: 2-4 threads that are the only owners of one long history drop it at the same instant (spin barrier): children with 300 000-entry histories on 2 MiB threads must survive, and drop probes must show no growth of the stack span between 500 and 4 000 nodes. Observers 1-2 and the children of 3 run in the monitor profile and in plain release. distinct_nontrivial = distinct (L, seed, profile, observer) child runs that completed.".into(),
         assumptions: vec!["'for all lengths' is restated as L up to 4*10^5 (quick) / 2*10^6 (thorough) (quick: 4*10^5, thorough: 8*10^6) plus no measurable stack growth between L = 10^3 and L = 4*10^5".into(), "a child that dies for another reason (OOM, external signal) makes the run inconclusive".into()],
-        floors: vec![floor("survival_runs_held", 0, 0), floor("vmstk_comparisons", 1, 1), floor("simultaneous_probe_drop_rounds", 500, 5000), floor("concurrent_drop_runs_held", 0, 0), floor("runs_with_capture_after_long_stretch", 4, 8), floor("runs_with_last_owner_dropped_during_unwinding", 2, 4), floor("longest_history_reached", 400_001, 8_000_001)],
+        floors: vec![floor("survival_runs_held", 0, 0), floor("vmstk_comparisons", 1, 1), floor("simultaneous_probe_drop_rounds", 500, 5000), floor("concurrent_drop_runs_held", 0, 0), floor("runs_with_capture_after_long_stretch", 4, 8), floor("runs_with_last_owner_dropped_during_unwinding", 2, 4), floor("runs_with_pending_push_state_queried", 4, 8), floor("longest_history_reached", 400_001, 8_000_001)],
         level: "exploration",
         exhaustive: None,
         extra,
